@@ -215,12 +215,29 @@ type term struct {
 	Sources  []workload
 }
 
-// fnPreds: the opaque predicates used for filter.FN terms.
-var fnPreds = []func(metav1.Object) bool{
-	func(o metav1.Object) bool { return o.GetNamespace() == "a" },
-	func(o metav1.Object) bool { return o.GetLabels()["x"] == "1" },
-	func(o metav1.Object) bool { return o.GetName() != "p" },
-}
+// fnPreds: the opaque predicates used for filter.FN terms.  All of them are created by ONE
+// function literal (one site, in a loop - an inlined factory would be duplicated per call site)
+// with different captured values, the way a caller writes a predicate factory: they share their
+// code pointer, so an equality that identifies functions by code pointer would equate them.
+var fnPreds = func() []func(metav1.Object) bool {
+	var out []func(metav1.Object) bool
+	for _, c := range []struct {
+		field int
+		val   string
+	}{{0, "a"}, {1, "1"}, {2, "p"}} { // namespace a; label x=1; any name but p
+		c := c
+		out = append(out, func(o metav1.Object) bool {
+			switch c.field {
+			case 0:
+				return o.GetNamespace() == c.val
+			case 1:
+				return o.GetLabels()["x"] == c.val
+			}
+			return o.GetName() != c.val
+		})
+	}
+	return out
+}()
 
 func copySet(m map[string]string) map[string]string {
 	if m == nil {
@@ -409,49 +426,55 @@ func workloadObject(kind string, w workload) kobj {
 }
 
 func buildWorkloadFilter(kind string, ws []workload) filter.ComparableFilter {
+	return workloadCtor(kind, ws)()
+}
+
+// workloadCtor builds the source objects once and returns the constructor call over them: calling it
+// twice hands the very same objects (and the same slice) to the library twice.
+func workloadCtor(kind string, ws []workload) func() filter.ComparableFilter {
 	switch kind {
 	case "service":
 		var xs []*corev1.Service
 		for _, w := range ws {
 			xs = append(xs, w.service())
 		}
-		return service.PodsFilter(xs...)
+		return func() filter.ComparableFilter { return service.PodsFilter(xs...) }
 	case "replicationcontroller":
 		var xs []*corev1.ReplicationController
 		for _, w := range ws {
 			xs = append(xs, w.rc())
 		}
-		return replicationcontroller.PodsFilter(xs...)
+		return func() filter.ComparableFilter { return replicationcontroller.PodsFilter(xs...) }
 	case "replicaset":
 		var xs []*appsv1.ReplicaSet
 		for _, w := range ws {
 			xs = append(xs, &appsv1.ReplicaSet{ObjectMeta: buildWorkloadMeta(w), Spec: appsv1.ReplicaSetSpec{Selector: w.Sel.build(), Template: w.podTemplate()}})
 		}
-		return replicaset.PodsFilter(xs...)
+		return func() filter.ComparableFilter { return replicaset.PodsFilter(xs...) }
 	case "deployment":
 		var xs []*appsv1.Deployment
 		for _, w := range ws {
 			xs = append(xs, &appsv1.Deployment{ObjectMeta: buildWorkloadMeta(w), Spec: appsv1.DeploymentSpec{Selector: w.Sel.build(), Template: w.podTemplate()}})
 		}
-		return deployment.PodsFilter(xs...)
+		return func() filter.ComparableFilter { return deployment.PodsFilter(xs...) }
 	case "daemonset":
 		var xs []*appsv1.DaemonSet
 		for _, w := range ws {
 			xs = append(xs, &appsv1.DaemonSet{ObjectMeta: buildWorkloadMeta(w), Spec: appsv1.DaemonSetSpec{Selector: w.Sel.build(), Template: w.podTemplate()}})
 		}
-		return daemonset.PodsFilter(xs...)
+		return func() filter.ComparableFilter { return daemonset.PodsFilter(xs...) }
 	case "statefulset":
 		var xs []*appsv1.StatefulSet
 		for _, w := range ws {
 			xs = append(xs, &appsv1.StatefulSet{ObjectMeta: buildWorkloadMeta(w), Spec: appsv1.StatefulSetSpec{Selector: w.Sel.build(), Template: w.podTemplate()}})
 		}
-		return statefulset.PodsFilter(xs...)
+		return func() filter.ComparableFilter { return statefulset.PodsFilter(xs...) }
 	case "job":
 		var xs []*batchv1.Job
 		for _, w := range ws {
 			xs = append(xs, &batchv1.Job{ObjectMeta: buildWorkloadMeta(w), Spec: batchv1.JobSpec{Selector: w.Sel.build(), Template: w.podTemplate()}})
 		}
-		return job.PodsFilter(xs...)
+		return func() filter.ComparableFilter { return job.PodsFilter(xs...) }
 	}
 	panic("unknown workload kind " + kind)
 }
@@ -501,6 +524,53 @@ func (t *term) build() filter.Filter {
 		return ingress.ServicesFilter(xs...)
 	}
 	panic("unknown term")
+}
+
+// buildTwice constructs the term's filter twice from the SAME argument values - one id slice, one
+// label map, one selector object, one slice of source objects handed to the constructor twice - and
+// the second tree consists of the second-built leaves only.  A constructor that consumes, reorders
+// or keeps a mutable hold on what its caller passes in makes the two differ from each other or
+// from the reference.
+func (t *term) buildTwice() (filter.Filter, filter.Filter) {
+	switch t.Kind {
+	case tNot:
+		a, b := t.Children[0].buildTwice()
+		return filter.Not(a), filter.Not(b)
+	case tAnd, tOr:
+		as, bs := make([]filter.Filter, len(t.Children)), make([]filter.Filter, len(t.Children))
+		for i, c := range t.Children {
+			as[i], bs[i] = c.buildTwice()
+		}
+		if t.Kind == tAnd {
+			return filter.And(as...), filter.And(bs...)
+		}
+		return filter.Or(as...), filter.Or(bs...)
+	case tNSName:
+		ids := append([]nsname.NSName(nil), t.IDs...)
+		return filter.NSName(ids...), filter.NSName(ids...)
+	case tLabels:
+		m := copySet(t.Set)
+		return filter.Labels(m), filter.Labels(m)
+	case tLabelSelector:
+		ls := t.Sel.build()
+		return filter.LabelSelector(ls), filter.LabelSelector(ls)
+	case tNode:
+		names := append([]string(nil), t.Names...)
+		return pod.NodeFilter(names...), pod.NodeFilter(names...)
+	case tSelectorMatch:
+		m := copySet(t.Set)
+		return service.SelectorMatchFilter(m), service.SelectorMatchFilter(m)
+	case tWorkloadPods:
+		mk := workloadCtor(t.WKind, t.Sources)
+		return mk(), mk()
+	case tIngressServices:
+		var xs []*netv1beta1.Ingress
+		for _, w := range t.Sources {
+			xs = append(xs, w.ingress())
+		}
+		return ingress.ServicesFilter(xs...), ingress.ServicesFilter(xs...)
+	}
+	return t.build(), t.build()
 }
 
 // ---------------------------------------------------------------- reference evaluation
